@@ -202,6 +202,19 @@ CHECKS["C14"] = dict(
     technique="Lean 4 proof (state machines, induction on the number of outputs, a generic step-bound lemma); differential outputs + pull counts; pull-bound oracle",
     ref="§5 C14")
 
+CHECKS["C19"] = dict(
+    text="Lean: an effect model of every place where the interpreter decides by ctx.online (printing, evaluate, call on a string, execute, "
+         "input parsing, the error wrappers) with theorems for ALL operation sequences: online there is no host output, no eval/exec of user "
+         "text, no propagated exception, and the output record equals the offline stdout; kernel-checked sinks_accounted over the regenerated "
+         "inventory of every syntactic sink call (in vyxal/*.py AND inside the element templates) with its dominating ctx.online tests, and "
+         "user_text_sinks_guarded over the audited classification. Tie: translator (inventory) + child-process runs under sys.addaudithook "
+         "with fd-level stdout capture and tainted inputs / literals: host stdout empty, no tainted compile/exec outside string constants of "
+         "generated code, no os.system / subprocess / socket events, errors end in the error record, record == offline stdout.",
+    note=COMMON_NOTE + "Partial: the theorem is over the effect model; that no other path reaches a sink rests on the syntactic inventory (T8) and the audit-hook runs. "
+         "input() at end of input reads the host's stdin in both modes (not an execution of user text).",
+    technique="Lean 4 proof (effect traces, induction over operation sequences, decide +kernel over the regenerated sink inventory); audit-hook differential online vs offline",
+    ref="§5 C19")
+
 NOT_YET = {}
 
 def main():
